@@ -33,6 +33,8 @@ def build(shape, rng, solver_results=False):
         met["z0"] = 0.05
     if shape["ts"] == "label":
         met["timestamps"] = ["%d:30" % (8 + t) for t in range(ns)]   # '8:30' '9:30' '10:30' ...: the width of the labels grows
+    if shape["ts"] == "number":
+        met["timestamps"] = [1000 + 30 * ((7 * t + 2) % 11) for t in range(ns)]   # integers that are neither the position nor ascending
     raw = {"domain": {"nx": nx, "ny": ny, "xmax": 100.0, "ymax": 60.0, "nz": 3, "ref_lat": 50.0, "ref_lon": 11.0}, "towers": towers, "met": met}
     cfg = parse_config_dict(raw)
     x = np.linspace(0, 100.0, nx, endpoint=False)
@@ -53,6 +55,9 @@ def build(shape, rng, solver_results=False):
                 flx = np.stack([token_field(rng, i, t + 1, l + 1, ny, nx, "flx") for l in range(nl)])
                 conc = np.stack([token_field(rng, i, t + 1, l + 1, ny, nx, "conc") for l in range(nl)])
             lst.append({"grid": grid, "conc": conc, "flx": flx, "tower_name": tw.name, "tower_xy": (tw.x, tw.y), "timestamp": cfg.met.get_step(t)["timestamp"], "params": cfg.met.get_step(t)})
+        if shape["ts"] == "number":   # NumPy integers as well as Python ones
+            for r_ in lst[1::2]:
+                r_["timestamp"] = np.int64(r_["timestamp"])
         results[tw.name] = lst
     return cfg, results, (x, y, zl)
 
@@ -205,7 +210,7 @@ def main():
     # LARGE result sets (TLC enumerates up to 4 towers x 4 steps x 3 levels; the placement does not depend on the size -
     # an implementation might): many towers, many steps, both timestamp forms
     for big in ({"nt": 9, "ns": 14, "nl": 3, "ts": "label", "forcing": "ustar"}, {"nt": 16, "ns": 3, "nl": 0, "ts": "index", "forcing": "z0"},
-                {"nt": 2, "ns": 40, "nl": 1, "ts": "label", "forcing": "ustar"}):
+                {"nt": 2, "ns": 40, "nl": 1, "ts": "label", "forcing": "ustar"}, {"nt": 3, "ns": 11, "nl": 0, "ts": "number", "forcing": "ustar"}):
         chk.case(json.dumps(big, sort_keys=True))
         check_shape(chk, big, rng, work)
         chk.traces += 1
@@ -263,7 +268,7 @@ def main():
         n_solver += 1
     chk.extra["solver_result_sets"] = n_solver
     chk.extra["exhaustive"] = True
-    chk.rule = "TLC enumerates every result-set shape (towers 1..4 x steps 1..4 x 2-D / 1..3 levels x index/label timestamps x ustar/z0); each is saved and loaded with token arrays (distinct per tower/step/level, incl. denormals, +-0, 1e300) and compared bit-for-bit; non-trivial = more than one (tower, step)"
+    chk.rule = "TLC enumerates every result-set shape (towers 1..4 x steps 1..4 x 2-D / 1..3 levels x index/label/number timestamps x ustar/z0); each is saved and loaded with token arrays (distinct per tower/step/level, incl. denormals, +-0, 1e300) and compared bit-for-bit; non-trivial = more than one (tower, step)"
     for s in shapes[:: max(1, len(shapes) // 3)][:3]:
         chk.sample(s)
     return chk.finish()
